@@ -48,6 +48,7 @@ Fixpoint graph_ez_eqb (a b : graph) : bool :=
 
 (** ------------------------------------------------------------------ the case record *)
 Record case := {
+  c_judged : bool;                   (* false: outside the property's domain (correspondence-only case) *)
   c_before : option graph;           (* molecule handed to annotate_ez_isomers_cgsmiles (None: not reached) *)
   c_after : option graph;            (* the same object afterwards (None: it raised) *)
   c_ret : option graph;              (* molecule returned by resolve_all() (None: the resolver raised) *)
@@ -138,6 +139,7 @@ Definition rel_same_support (got want : list rel) : bool :=
 
 (** 0 = all clauses hold; otherwise the number of the first failing clause *)
 Definition prop_fail (c : case) : nat :=
+  if negb (c_judged c) then 0%nat else
   match c_ret c with
   | None => 9%nat
   | Some g =>
